@@ -224,7 +224,7 @@ Section Sem.
   Hypothesis D_mul : forall lg i a b, D lg i (a * b) = D lg i a * b + a * D lg i b.
   Hypothesis D_phi : forall lg i z, D lg i (phi z) = 0.
   Hypothesis D_cst : forall lg i n, D lg i (cst n) = 0.
-  Hypothesis D_crd : forall lg i j, D lg i (crd lg j) = if Nat.eqb i j then 1 else 0.
+  Hypothesis D_crd : forall lg i j, D lg i (crd lg j) = if Nat.eqb i j && Nat.ltb j 3 then 1 else 0.
   Hypothesis D_comm : forall lg i j a, D lg i (D lg j a) = D lg j (D lg i a).
   (* [Edom f a]: the composition f o a exists in the field (e.g. a has no pole);
      [Pdom b e]: the general power b^e exists.  Elementary functions are partial. *)
@@ -354,7 +354,7 @@ Section Sem.
   Proof.
     destruct a as [l j|n|l f c s al|m j al|s j]; simpl; intros H.
     - destruct (Bool.eqb l lg) eqn:El; [|discriminate]. apply Bool.eqb_prop in El. subst l.
-      inversion H. rewrite D_crd. destruct (Nat.eqb i j); reflexivity.
+      inversion H. rewrite D_crd. destruct (Nat.eqb i j && Nat.ltb j 3); reflexivity.
     - inversion H. simpl. now rewrite D_cst.
     - destruct (all_zero al) eqn:Ez; simpl in H.
       + inversion H. simpl. rewrite bump_zero_iterD by auto. now rewrite (iterD_zero l al Ez).
@@ -412,7 +412,7 @@ Section Sem.
       repeat match goal with
              | H : (if ?c then _ else _) = Some _ |- _ => destruct c; try discriminate
              end; inversion H; simpl; auto.
-    destruct (Nat.eqb i i0); simpl; auto.
+    destruct (Nat.eqb i i0 && Nat.ltb i0 3); simpl; auto.
   Qed.
 
   Theorem tD_defined lg i t : forall t', tD lg i t = Some t' -> defined t -> defined t'.
